@@ -30,6 +30,13 @@ def gen_conf_table_params(rng, *, file_id=0, small=False):
 
 
 def build_conf_table(p):
+    t = _build_conf_table(p)
+    if p.get("hash_twins"):
+        datagen.plant_hash_twins(t, p["hash_twins"], random.Random(f"twins|{p['data_seed']}"))
+    return t
+
+
+def _build_conf_table(p):
     rng = random.Random(f"{p['data_seed']}|{p.get('file_id', 0)}")
     return datagen.gen_table(
         rng,
